@@ -168,6 +168,57 @@ class C02(Base):
 
 class C03(C02):
     id = "C03"
+    needs_cli = True
+    rule = C02.rule + ("; plus runs of the real binary in which the targets come partly from --removal-marker-target-name and partly "
+                       "from the config file: every element the union makes ready must be removed (compared with the library result)")
+
+    def cases(self, rng, tier):
+        yield from super().cases(rng, tier)
+        names = ["a", "b", "c d", "vec![]", "feature1"]
+        for i in range(quick(tier, 24, 300)):
+            pool = names[:]
+            rng.shuffle(pool)
+            flags = pool[:rng.randint(0, 2)]
+            filen = pool[2:2 + rng.randint(0, 2)] if i % 4 != 0 else None
+            doc = "".join("x%d\n<!-- <removal-marker name='%s'> -->\ny%d\n<!-- </removal-marker> -->\n" % (j, n, j) for j, n in enumerate(pool))
+            cfg = Cfg(tl="time-limited", rm="removal-marker", targets=tuple(sorted(set(flags) | set(filen or []))))
+            c = Case("cli-union", [req("clean", doc, "<!-- <", "> -->", cfg)],
+                     {"replay": True, "cli_union": True, "src": doc, "ds": "<!-- <", "de": "> -->", "cfg": cfg.to_json(), "flags": flags, "file": filen},
+                     key=(doc, tuple(flags), tuple(filen or ["-"])))
+            yield c
+
+    def corpus_cases(self, name, body):
+        if body.get("cli_union"):
+            cfg = Cfg.from_json(body["cfg"])
+            return [Case(name, [req("clean", body["src"], body["ds"], body["de"], cfg)], dict(body), key=json.dumps(body, sort_keys=True))]
+        return super().corpus_cases(name, body)
+
+    def spec_reqs(self, case, impl):
+        return [] if case.meta.get("cli_union") else super().spec_reqs(case, impl)
+
+    def oracle(self, case, impl, spec):
+        m = case.meta
+        if not m.get("cli_union"):
+            return super().oracle(case, impl, spec)
+        import os, subprocess, tempfile
+        k, v = parse_reply(impl[0])
+        if k != "ok":
+            return {"fail": "panic", "detail": v, "nontrivial": True, "tags": ["panic"]}
+        lib = unhx(v)
+        with tempfile.TemporaryDirectory(prefix="verif-c03-") as td:
+            args = [self.cli, "--time-limited-current", "2020-01-01T00:00:00+00:00"]
+            for f in m["flags"]:
+                args += ["--removal-marker-target-name=" + f]
+            if m["file"] is not None:
+                pth = os.path.join(td, "targets.txt")
+                open(pth, "w").write("".join(x + "\n" for x in m["file"]))
+                args += ["--removal-marker-target-config", pth]
+            r = subprocess.run(args, input=m["src"].encode(), stdout=subprocess.PIPE, stderr=subprocess.PIPE)
+        out = r.stdout.decode(errors="replace")
+        if r.returncode != 0 or out != lib:
+            return {"fail": "C03-cli", "detail": "binary with flags=%r file=%r: rc=%d output %r, library with the union of the targets %r" % (m["flags"], m["file"], r.returncode, out, lib),
+                    "nontrivial": True, "tags": ["cli"]}
+        return {"nontrivial": lib != m["src"], "tags": ["cli:" + ("both" if m["flags"] and m["file"] else "one-source")]}
 
 
 # ============================================================================================ C04
@@ -361,7 +412,9 @@ class C06(Base):
                 # quote character: the one the value does not contain; otherwise alternate by position
                 q = '"' if "'" in v else ("'" if '"' in v else ("'", '"')[(i + len(v)) % 2])
                 body += " %s=%s%s%s" % (n, q, v, q)
-        doc = "x\n<" + body + ">\ny\n</" + tagname + ">\nz\n"
+        # a tag name in closing form (`/rm`) is an unregistered name; its closer is tried in both spellings
+        closer = tagname.lstrip("/") if (tagname.startswith("/") and (len(attrs) + len(tagname)) % 2 == 0) else tagname
+        doc = "x\n<" + body + ">\ny\n</" + closer + ">\nz\n"
         return Case(label, [req("clean", doc, cfg=cfg)],
                     {"replay": True, "probe": True, "attrs": attrs, "cfg": cfg.to_json(), "tag": tagname, "expect": expect, "label": label},
                     key=(doc, cfg.key()))
@@ -395,7 +448,7 @@ class C06(Base):
             targets = tuple(sorted(set(rng.choice(safe_names) for _ in range(rng.choice([0, 1, 1, 2, 3])))))
             tl, rm = rng.choice([("tl", "rm"), ("tl", "rm"), ("rm", "rm"), ("time-limited", "removal-marker"), ("é", "印")])
             cfg = Cfg(tl=tl, rm=rm, targets=targets)
-            tagname = rng.choice([rm, rm, rm, tl, "zz", rm.upper(), rm + "x"])
+            tagname = rng.choice([rm, rm, rm, tl, "zz", rm.upper(), rm + "x", "/" + rm, "/" + tl])
             attrs = []
             k = rng.choice([0, 1, 1, 2, 3])
             for _ in range(k):
